@@ -12,7 +12,7 @@ EXPLANATION = (
     "executed with (a) an abstract covariance/mean function whose values are uninterpreted functions of the point "
     "coordinates and whose data covariance plus noise is parametrised as L.L^T (every SPD matrix has exactly one such "
     "factor; cholesky returns it after the solver certifies K_xx+S == L.L^T, solve_triangular is exact substitution) "
-    "and (b) the real kernels (SE, RQ, SE+WhiteNoise, SE+HeteroscedasticNoise, ChangePoint) and mean functions with an "
+    "and (b) the real kernels (SE, RQ, SE+WhiteNoise, SE+HeteroscedasticNoise) and mean functions with an "
     "explicit symbolic Cholesky for 2 training points. Asserted: mean(q) == m(q) + K_qx (K_xx+S)^-1 (y-m(x)); "
     "sigma^2 == |K_qq - K_qx (K_xx+S)^-1 K_xq| with the solves certified by residual identities; build_posterior mean / "
     "covariance equal the same closed form and agree with the point-wise call; mean_only agrees; 0 <= sigma^2 <= K_qq "
@@ -22,7 +22,7 @@ EXPLANATION = (
     ' Both kernel entry points (build_covariance, __call__) of every shipped kernel must be the same covariance function. Call-sequence unit: predictions after score evaluations at other hyper-parameters and after set_hyperparameters equal those of a freshly built regressor.'
 )
 BOUNDS = {"quick": "n<=2 training points (abstract kernel n<=3), <=2 query points, d<=2",
-          "thorough": "abstract kernel n<=3 with 2 query points, d<=2; real kernels n=2; training-order invariance n=2 only (explicit Cholesky for n=3 is undecided by nlsat within 120 s)"}
+          "thorough": "abstract kernel n<=3 with 2 query points, d<=2; real kernels n=2 (the change-point kernel through the regressor is undecided by nlsat within 120 s even for one training point: it is covered by the entry-point consistency unit and by C10 instead); training-order invariance n=2 only (explicit Cholesky for n=3 is undecided by nlsat within 120 s)"}
 ASSUMPTIONS = [
     "floats as reals; LAPACK cholesky / solve_triangular replaced by exact contract stubs",
     "abstract-kernel units: K_xx + S = L.L^T with L lower triangular, positive diagonal (covers every SPD matrix)",
@@ -189,7 +189,7 @@ def _real_kernel(h, cv, key, n, d):
 
 QR = [dict(key="SE", mean="const", n=2, d=1), dict(key="SE+WN", mean="lin", n=2, d=1), dict(key="SE+HN", mean="const", n=2, d=2),
       dict(key="RQ", mean="quad", n=2, d=1), dict(key="RQ", mean="const", n=2, d=2)]
-TR = [dict(key="CP2", mean="const", n=2, d=1), dict(key="SE", mean="lin", n=2, d=2), dict(key="SE+HN", mean="quad", n=2, d=2),
+TR = [dict(key="SE", mean="lin", n=2, d=2), dict(key="SE+HN", mean="quad", n=2, d=2),
       dict(key="SE+WN", mean="const", n=2, d=2)]
 
 
